@@ -90,6 +90,7 @@ S := {"bb", "a", "cc", "d"}
 S2 := {"cc", "e", "ff"}
 SF := {10000000000000000.0, 1.0, -10000000000000000.0, 1.5}
 SX := {1, "x", nil, 2.5}
+SN := {math.sqrt(-1.0), 3.0, 1.0, 0.5}
 MF := {"bb": 10000000000000000.0, "a": 1.0, "cc": -10000000000000000.0, "d": 1.5}
 MX := {"bb": 1, "a": "x", "cc": nil, "d": 2.5}
 cmp := func(a, b) { print("cmp", a, b); return len(string(a)) < len(string(b)) }
@@ -113,7 +114,7 @@ func containerPrograms(thorough bool) []string {
 	// contents whose fold depends on the order: floats that cancel, and values of four types (the
 	// first one a builtin rejects names the error)
 	for _, f := range detCallables() {
-		for _, c := range []string{"SF", "SX", "MF", "MX"} {
+		for _, c := range []string{"SF", "SX", "SN", "MF", "MX"} {
 			out = append(out, wrap(f+"("+c+")"))
 			if thorough {
 				out = append(out, wrap(f+"("+c+", cb)"), wrap(f+"(\"%v\", "+c+")"))
@@ -131,7 +132,7 @@ func containerPrograms(thorough bool) []string {
 		}
 	}
 	for _, m := range containerMethodNames() {
-		for _, c := range []string{"SF", "SX", "MF", "MX"} {
+		for _, c := range []string{"SF", "SX", "SN", "MF", "MX"} {
 			out = append(out, wrap(c+"."+m+"()"))
 			if thorough {
 				out = append(out, wrap(c+"."+m+"(cb)"), wrap(c+"."+m+"(cb2)"))
